@@ -89,3 +89,52 @@ func HarnessC07_Packets() {
 	vAssert(true, "decoder returned")
 	vReach("c07-packets")
 }
+
+// HarnessC07_ChunkStep: one chunk read from an arbitrary valid chunk-stream state (fresh, idle
+// after earlier messages, or with a partially received message), with an arbitrary header type
+// and arbitrary header bytes. Streams longer than the byte bound of C07_Chunks reach these
+// states; the step must return (message, continue or error), never panic.
+func HarnessC07_ChunkStep() {
+	d := newDuplexWith(vBytes(vChoice(19)))
+	p := NewProtocol(d)
+	cs := vU32()
+	vAssume(vAnd(cs >= 1, cs <= 4))
+	p.input.opt.chunkSize = cs
+	chunk := newChunkStream()
+	chunk.cid = chunkID(2 + vChoice(2))
+	chunk.header.betterCid = chunk.cid
+	switch vChoice(3) {
+	case 0: // fresh chunk stream
+	case 1: // idle after earlier messages
+		chunk.count = 1 + uint64(vU8())
+		chunk.header.payloadLength = vU32() & 0xffffff
+		chunk.header.MessageType = MessageType(vU8())
+		chunk.header.streamID = vU32()
+		chunk.header.Timestamp = uint64(vU32() & 0x7fffffff)
+		chunk.header.timestampDelta = vU32() & 0xffffff
+		chunk.extendedTimestamp = vBool()
+	case 2: // a message partially received: 1..5 of 2..6 bytes
+		chunk.count = 1 + uint64(vU8())
+		l := 2 + vChoice(5)
+		r := 1 + vChoice(l-1)
+		chunk.header.payloadLength = uint32(l)
+		chunk.header.MessageType = MessageType(vU8())
+		chunk.header.streamID = vU32()
+		chunk.header.Timestamp = uint64(vU32() & 0x7fffffff)
+		chunk.header.timestampDelta = vU32() & 0xffffff
+		chunk.extendedTimestamp = vBool()
+		chunk.message = NewMessage()
+		chunk.message.messageHeader = chunk.header
+		chunk.message.Payload = vBytes(r)
+	}
+	p.input.chunks[chunk.cid] = chunk
+	format := formatType(vChoice(4))
+	if err := p.readMessageHeader(chunk, format); err == nil {
+		if m, err := p.readMessagePayload(chunk); err == nil && m != nil {
+			p.onMessageArrivated(m)
+			vReach("c07-chunkstep-message")
+		}
+	}
+	vAssert(true, "chunk step returned")
+	vReach("c07-chunkstep")
+}
